@@ -82,6 +82,19 @@ def replay_hist(tag, rec):
                     ones = [j for j, v in enumerate(row) if v]
                     m.append(rec['inst']['prefs'][s_i][ones[0]] if len(ones) == 1 else (0 if not ones else -1))
                 cl.add('C18', 'debug_rows_are_the_matching', tuple(m) in fin, 'get_debug rows %s -> %s not among the specified optima' % (rows, m))
+                # growth: with -pc a project is shown closed only if nobody is assigned to it (projects of capacity 0 excepted)
+                if o['pc'] and d['closures'] is not None:
+                    bad = [j + 1 for j, c in enumerate(d['closures'][:rec['inst']['np']])
+                           if c == 1 and rec['inst']['puq'][j] > 0 and any(x == j + 1 for x in m)]
+                    cl.add('X', 'debug_closed_projects_are_empty', not bad and len(d['closures']) == rec['inst']['np'],
+                           'closure row %s, matching %s: projects %s shown closed although assigned' % (d['closures'], m, bad))
+                # growth: the instance block of get_debug is the instance the file denotes
+                inst = rec['inst']
+                exp_pairs = [[{'s': s_i + 1, 'p': pj, 'rs': inst['ranks'][s_i][k2], 'l': inst['plec'][pj - 1],
+                               'rl': (inst['lrank'][inst['plec'][pj - 1] - 1][s_i] if inst['two'] else None)}
+                              for k2, pj in enumerate(inst['prefs'][s_i])] for s_i in range(inst['ns'])]
+                cl.add('C10', 'debug_instance_block', d['pairs'][:inst['ns']] == exp_pairs,
+                       'get_debug instance block %s, file denotes %s' % (d['pairs'][:inst['ns']], exp_pairs))
         return cl.out, info
     finally:
         os.unlink(path)
